@@ -266,7 +266,11 @@ func cmdVerify(args []string) int {
 			defer func() { <-sem }()
 			q := vcOf[o].query(o)
 			first := o.Result
-			o.Result = solve(q, tmp, o.Name, to)
+			t := to
+			if o.Cover && t > 6 {
+				t = 6 // vacuity checks are advisory: "unknown" is accepted
+			}
+			o.Result = solve(q, tmp, o.Name, t)
 			o.Result.Ms += first.Ms
 		}(o)
 	}
